@@ -472,7 +472,7 @@ class Machine:
         self.shared = {}  # facts shared between paths (e.g. values stored to shared statics)
 
     # ---- obligations / violations ----------------------------------------------------------
-    def oblige(self, st, kind, ok, detail=None):
+    def oblige(self, st, kind, ok, detail=None, fatal=True):
         e = self.obl.setdefault(kind, [0, 0, None])
         e[0] += 1
         if ok:
@@ -480,7 +480,7 @@ class Machine:
             if e[2] is None:
                 e[2] = self.where(st)
         else:
-            self.violate(st, "obligation:" + kind, detail or "")
+            self.violate(st, "obligation:" + kind, detail or "", fatal=fatal)
 
     def violate(self, st, rule, detail, fatal=True):
         key = (rule, detail)
